@@ -85,3 +85,110 @@ package proxy
 //@   ensures  @start: b.size > 0 ==> b.startProxyID == old(b.startProxyID) + int64(clamp(count, 0, old(b.size)))
 //@   ensures  @view: forall j int :: 0 <= j && j < b.size ==> b.at(j) == old(b.at(j + clamp(count, 0, old(b.size))))
 //@   assigns  b.head, b.size, b.startProxyID
+
+// ---------------------------------------------------------------------------------------------
+// C20: stream-open metadata cannot wedge or crash the replication-stream service.
+// ---------------------------------------------------------------------------------------------
+
+//@ pred (s *ReplicationStreamObserver) wf() = len(s.streamActive) <= 4294967296
+//@ pred inInt32(x int) = MinInt32 <= x && x <= MaxInt32
+
+//@ extern quiet (loggable).Warn
+//@ extern quiet (loggable).Info
+
+// Sequential (linearised) contract of the critical section: for ALL int32 idx and value there is no panic,
+// the lock is released on every exit, at most one pre-existing counter changes (by exactly `value`), and a
+// non-zero report is never lost. The slot used for idx is an implementation detail the contract does not fix.
+//@ contract (*ReplicationStreamObserver).ReportStreamValue
+//@   props C20
+//@   requires s.wf()
+//@   ensures  @wf: s.wf()
+//@   ensures  @unlocked: !held(s.streamGrowLock)
+//@   ensures  @grow: len(s.streamActive) >= old(len(s.streamActive))
+//@   ensures  @others: forall j int, k int :: 0 <= j && j < k && k < old(len(s.streamActive)) ==>
+//@               s.streamActive[j] == old(s.streamActive[j]) || s.streamActive[k] == old(s.streamActive[k])
+//@   ensures  @added: forall j int :: 0 <= j && j < old(len(s.streamActive)) ==> s.streamActive[j] == old(s.streamActive[j]) ||
+//@               (inInt32(old(s.streamActive[j]) + value) ==> s.streamActive[j] == old(s.streamActive[j]) + value)
+//@   ensures  @counted: 0 <= idx && int(idx) < old(len(s.streamActive)) && value != 0 && inInt32(old(s.streamActive[idx]) + value) ==>
+//@               exists j int :: 0 <= j && j < len(s.streamActive) && s.streamActive[j] != old(s.streamActive[j])
+//@   assigns  s.streamActive, elems(s.streamActive)
+
+//@ ghost adminServiceProxyServer.net int
+//@ extern $s.reportStreamValue(idx, value)
+//@   trusted wired to ReplicationStreamObserver.ReportStreamValue by NewAdminServiceProxyServer; ghost net = sum of reported values
+//@   ensures s.net == old(s.net) + value
+//@   assigns s.net
+
+//@ extern metadata.FromIncomingContext(ctx)
+//@   trusted google.golang.org/grpc/metadata: ok implies a non-nil map
+//@   ensures result1 ==> result0 != nil
+//@   assigns nothing
+//@ extern quiet history.DecodeClusterShardMD
+//@ extern quiet headers.NewGRPCHeaderGetter
+//@ extern quiet serviceerror.NewInvalidArgument
+//@ extern quiet log.CapturePanic
+//@ extern quiet ClusterShardIDtoString
+
+// Bookkeeping is balanced on every exit path (+1 is followed by a deferred -1; early error returns happen
+// before any bookkeeping) and panic capture is installed first.
+//@ pred (s *adminServiceProxyServer) lcmOK() = s.shardCountConfig.Mode == config.ShardCountLCM ==>
+//@     1 <= s.lcmParameters.TargetShardCount && s.lcmParameters.TargetShardCount <= s.lcmParameters.LCM && s.lcmParameters.LCM % s.lcmParameters.TargetShardCount == 0
+//@ contract (*adminServiceProxyServer).StreamWorkflowReplicationMessages
+//@   props C20 C07
+//@   requires s.lcmOK()
+//@   firstdefer log.CapturePanic
+//@   ensures @balanced: s.net == old(s.net)
+
+// ---------------------------------------------------------------------------------------------
+// C07: LCM mode presents one consistent shard space (shard remap, stream metadata, DescribeCluster).
+// ---------------------------------------------------------------------------------------------
+
+// Total in the shard id: for every int32 sourceShardID there is no panic (C20); in 1..LCM the value is the
+// single real shard (s-1) mod c + 1, which lies in 1..c.
+//@ contract mapShardIDUnique
+//@   props C07 C20
+//@   requires 1 <= targetShardCount && targetShardCount <= sourceShardCount && sourceShardCount % targetShardCount == 0
+//@   ensures  @value: 1 <= sourceShardID && sourceShardID <= sourceShardCount ==> result == (sourceShardID - 1) % targetShardCount + 1
+//@   ensures  @range: 1 <= sourceShardID && sourceShardID <= sourceShardCount ==> 1 <= result && result <= targetShardCount
+//@   assigns  nothing
+
+//@ extern quiet newStreamForwarder
+//@   trusted constructor: stores its arguments in a fresh StreamForwarder (no effect on the caller's state)
+//@ extern quiet (*StreamForwarder).Run
+//@ extern quiet streamIntraProxyRouting
+//@ extern quiet streamRouting
+//@ extern pure common.IsIntraProxy
+
+// LCM branch: whenever the forwarder is created, the outgoing stream metadata names the incoming LCM shard s
+// as the initiator's (client) shard, the remapped real shard as the server shard, and keeps both cluster ids.
+//@ contract handleStream
+//@   props C07 C20
+//@   assigns contents(targetMetadata)
+//@   requires targetMetadata != nil
+//@   requires shardCountConfig.Mode == config.ShardCountLCM ==>
+//@            1 <= lcmParameters.TargetShardCount && lcmParameters.TargetShardCount <= lcmParameters.LCM && lcmParameters.LCM % lcmParameters.TargetShardCount == 0
+//@   callpre newStreamForwarder: @client_shard: shardCountConfig.Mode == config.ShardCountLCM ==>
+//@            len(targetMetadata[strlower(history.MetadataKeyClientShardID)]) == 1 &&
+//@            targetMetadata[strlower(history.MetadataKeyClientShardID)][0] == strconv.Itoa(int(sourceClusterShardID.ShardID))
+//@   callpre newStreamForwarder: @server_shard: shardCountConfig.Mode == config.ShardCountLCM && 1 <= sourceClusterShardID.ShardID && sourceClusterShardID.ShardID <= lcmParameters.LCM ==>
+//@            len(targetMetadata[strlower(history.MetadataKeyServerShardID)]) == 1 &&
+//@            targetMetadata[strlower(history.MetadataKeyServerShardID)][0] == strconv.Itoa(int((sourceClusterShardID.ShardID - 1) % lcmParameters.TargetShardCount + 1))
+//@   callpre newStreamForwarder: @client_cluster: shardCountConfig.Mode == config.ShardCountLCM ==>
+//@            len(targetMetadata[strlower(history.MetadataKeyClientClusterID)]) == 1 &&
+//@            targetMetadata[strlower(history.MetadataKeyClientClusterID)][0] == strconv.Itoa(int(targetClusterShardID.ClusterID))
+//@   callpre newStreamForwarder: @server_cluster: shardCountConfig.Mode == config.ShardCountLCM ==>
+//@            len(targetMetadata[strlower(history.MetadataKeyServerClusterID)]) == 1 &&
+//@            targetMetadata[strlower(history.MetadataKeyServerClusterID)][0] == strconv.Itoa(int(sourceClusterShardID.ClusterID))
+//@   callpre newStreamForwarder: @ids_passed: $sourceClusterShardID == sourceClusterShardID && $targetClusterShardID == targetClusterShardID && $targetMetadata == targetMetadata
+
+//@ extern pure common.IsRequestTranslationDisabled
+//@ extern quiet (adminservice.AdminServiceClient).DescribeCluster
+//@   trusted gRPC client call: no effect on the proxy's own state; unconstrained response
+//@ extern quiet (logging.LoggerProvider).Get
+
+// In LCM mode the peer is told the least common multiple as the history shard count (unless translation is
+// disabled for the request or the upstream call failed).
+//@ contract (*adminServiceProxyServer).DescribeCluster
+//@   props C07
+//@   ensures @lcm_reported: result1 == nil && result0 != nil && s.shardCountConfig.Mode == config.ShardCountLCM &&
+//@            !common.IsRequestTranslationDisabled(ctx) ==> result0.HistoryShardCount == s.lcmParameters.LCM
